@@ -83,19 +83,26 @@ fn fast_bitmap_transfer(buffer: &mut Vec<u32>, width: usize, bitmap: BitmapEvent
     let bitmap_dest_top = bitmap.dest_top as usize;
     let bitmap_width = bitmap.width as usize;
 
+    // inverted rectangle are refused
+    if bitmap_dest_bottom < bitmap_dest_top || bitmap_dest_right < bitmap_dest_left {
+        return Err(Error::RdpError(RdpError::new(RdpErrorKind::InvalidSize, "Invalid destination rectangle")))
+    }
+
     let data = bitmap.decompress()?;
 
     // Use some unsafe method to faster
     // data transfer between buffers
     unsafe {
         let data_aligned :Vec<u32> = transmute_vec(data);
+        let count = bitmap_dest_right - bitmap_dest_left + 1;
         for i in 0..(bitmap_dest_bottom - bitmap_dest_top + 1) {
-            let dest_i = (i + bitmap_dest_top) * width + bitmap_dest_left;
+            // compute on 128 bits: the window width is not bounded
+            let dest_end = (i + bitmap_dest_top) as u128 * width as u128 + bitmap_dest_left as u128 + count as u128;
             let src_i = i * bitmap_width;
-            let count = bitmap_dest_right - bitmap_dest_left + 1;
-            if dest_i > buffer.len() || dest_i + count > buffer.len() || src_i > data_aligned.len() || src_i + count > data_aligned.len() {
+            if dest_end > buffer.len() as u128 || src_i > data_aligned.len() || src_i + count > data_aligned.len() {
                 return Err(Error::RdpError(RdpError::new(RdpErrorKind::InvalidSize, "Image have invalide size")))
             }
+            let dest_i = (i + bitmap_dest_top) * width + bitmap_dest_left;
             copy_nonoverlapping(data_aligned.as_ptr().offset((src_i) as isize), buffer.as_mut_ptr().offset(dest_i as isize), count)
         }
     }
